@@ -23,8 +23,10 @@ type History struct {
 	Probe  string         `json:"probe"` // "", "none", "passive", "all": queries issued after every step
 	// Malformed: after every state-changing step, send this many structurally mutated requests
 	// (seeded sample of the grammar) through the HTTP handler
-	Malformed int        `json:"malformed"`
-	Ops       []world.Op `json:"ops"`
+	Malformed int `json:"malformed"`
+	// HTTP: run every operation through the HTTP handler with hand-built JSON (C20)
+	HTTP bool       `json:"http"`
+	Ops  []world.Op `json:"ops"`
 }
 
 func init() { commands["hist"] = cmdHist }
@@ -54,12 +56,13 @@ func runHistory(h History, scratch string, seed int64) ([]world.Event, error) {
 	os.RemoveAll(dir)
 	defer os.RemoveAll(dir)
 	w, err := world.New(world.Options{Dir: dir, FeePpk: h.Fee, MPP: h.MPP, FeeReserve: h.Policy,
-		Limits: limitsOf(h.Limits), Seed: seed + int64(h.ID), WithServer: h.Malformed > 0})
+		Limits: limitsOf(h.Limits), Seed: seed + int64(h.ID), WithServer: h.Malformed > 0 || h.HTTP})
 	if err != nil {
 		return nil, err
 	}
 	defer w.Close()
 	w.Tr = h.ID
+	w.ViaHTTP = h.HTTP
 	w.EmitInit(map[string]any{"fee": int(h.Fee), "mpp": h.MPP, "policy": h.Policy, "limits": world.LimitFacts(limitsOf(h.Limits))})
 	for _, op := range h.Ops {
 		w.Exec(op)
@@ -70,6 +73,25 @@ func runHistory(h History, scratch string, seed int64) ([]world.Event, error) {
 		probe(w, h.Probe)
 		if h.Malformed > 0 {
 			w.Exec(world.Op{Op: "malformed", Amt: uint64(h.Malformed)})
+		}
+		if h.HTTP && (op.Op == "swap" || op.Op == "mint") {
+			// NUT-19: replays and near-replays of the request just made
+			last := w.Events[len(w.Events)-1]
+			for _, e := range w.Events[max(0, len(w.Events)-8):] {
+				if e.Ev == op.Op {
+					last = e
+				}
+			}
+			if ok, _ := last.R["ok"].(bool); ok {
+				for _, v := range []string{"identical", "onebyte", "otherpath", "trailing", "identical"} {
+					w.Exec(world.Op{Op: "replay", Kind: v})
+				}
+			} else {
+				w.Exec(world.Op{Op: "replay", Kind: "failed"})
+			}
+		}
+		if h.HTTP && (op.Op == "rotate" || op.Op == "restart") {
+			w.Exec(world.Op{Op: "keyshape"})
 		}
 	}
 	return w.Events, nil
